@@ -1,6 +1,6 @@
 (* C05 - when a connection dies every caller is released with an error (I/O-thread side).
    This file only pins statements. *)
-From Amq Require Import Lib.Base Gen.Consts Model.Wire Model.Frames Model.OutBuf Model.Collector Model.Slots Model.Core Spec.Slots Spec.Content Proofs.Slots Proofs.OutBuf Proofs.Collector Proofs.CoreContent Proofs.CoreInv Proofs.CoreMore Check.Core Proofs.Examples.
+From Amq Require Import Lib.Base Gen.Consts Model.Wire Model.Frames Model.OutBuf Model.Collector Model.Slots Model.Core Spec.Slots Spec.Content Proofs.Slots Proofs.OutBuf Proofs.Collector Proofs.CoreContent Proofs.CoreInv Proofs.CoreMore Check.Core Proofs.Examples Model.Handle Proofs.Handle.
 
 (* a read that ends in EOF / an I/O error / an unparsable frame after frames that were all processed: the event's outcome is the error that names it (unless the close handshake had completed) *)
 Theorem C05_fatal_read : forall (c : core) (fs : list dframe) (t : rterm) (c2 : core), process_all c fs = (OOk, c2) -> is_client_closed c2 = false -> fst (fst (handle_event c (EvStream None (Some (fs, t))))) = term_outcome t.
@@ -30,6 +30,18 @@ Proof. exact teardown_releases. Qed.
 Theorem C05_releases_ch0 : forall (c : core) (z : ch0slot), c_ch0 c = Some z -> tx_gone (z_reply z) (c_qs (teardown c)) /\ tx_gone (z_alloc_rep z) (c_qs (teardown c)).
 Proof. exact teardown_releases_ch0. Qed.
 
+(* once the I/O thread is gone and nothing is queued, every call on a handle returns EventLoopDropped at once: nobody blocks on a dead connection *)
+Theorem C05_dead_thread_never_blocks : forall (c : hcall) (s : hstate), h_reply_tx s = false -> h_mail_rx s = false -> h_replies s = [] -> hstep c s = Some (RDropped, s).
+Proof. exact dead_thread_never_blocks. Qed.
+
+(* a call blocks only while the I/O thread still holds its end of the reply queue and has not answered yet *)
+Theorem C05_blocks_only_waiting : forall (c : hcall) (s : hstate), hstep c s = None -> h_reply_tx s = true /\ h_replies s = [].
+Proof. exact blocks_only_waiting. Qed.
+
+(* a verdict of the I/O thread at the head of the reply queue (channel closed by the server, connection closed, ...) is what the call reports - whether or not its own request could still be handed over (check_recv_for_error) *)
+Theorem C05_verdict_reported : forall (c : hcall) (e : N) (rest : list hitem) (s : hstate), c <> CNowait \/ h_mail_rx s = false -> h_replies s = HErr e :: rest -> exists s' : hstate, hstep c s = Some (RErrItem e, s') /\ h_replies s' = rest.
+Proof. exact verdict_reported. Qed.
+
 (* non-vacuity of C05_releases_*: in a reachable state with two channels and a consumer on
    each, every queue has a live sender; after the thread's state is dropped none has *)
 Example C05_example :
@@ -45,6 +57,9 @@ Check C05_missed_heartbeats : forall (c : core) (rest : list (hbkind * bool)), f
 Check C05_final_results : forall c : core, (forall (code : N) (text : str), c_phase c = PServerClosing code text -> final_result c = OErr (EServerClosedConnection code text)) /\ (c_phase c = PClientException -> final_result c = OErr EClientException) /\ (c_phase c = PClientClosed -> final_result c = OOk /\ is_done c = DDone).
 Check C05_releases_slots : forall (c : core) (n : N) (s : slot) (q : N), In (n, s) (c_slots c) -> slot_refs s q -> tx_gone q (c_qs (teardown c)).
 Check C05_releases_ch0 : forall (c : core) (z : ch0slot), c_ch0 c = Some z -> tx_gone (z_reply z) (c_qs (teardown c)) /\ tx_gone (z_alloc_rep z) (c_qs (teardown c)).
+Check C05_dead_thread_never_blocks : forall (c : hcall) (s : hstate), h_reply_tx s = false -> h_mail_rx s = false -> h_replies s = [] -> hstep c s = Some (RDropped, s).
+Check C05_blocks_only_waiting : forall (c : hcall) (s : hstate), hstep c s = None -> h_reply_tx s = true /\ h_replies s = [].
+Check C05_verdict_reported : forall (c : hcall) (e : N) (rest : list hitem) (s : hstate), c <> CNowait \/ h_mail_rx s = false -> h_replies s = HErr e :: rest -> exists s' : hstate, hstep c s = Some (RErrItem e, s') /\ h_replies s' = rest.
 
 Print Assumptions C05_fatal_read.
 Print Assumptions C05_fatal_outcomes.
@@ -53,4 +68,7 @@ Print Assumptions C05_missed_heartbeats.
 Print Assumptions C05_final_results.
 Print Assumptions C05_releases_slots.
 Print Assumptions C05_releases_ch0.
+Print Assumptions C05_dead_thread_never_blocks.
+Print Assumptions C05_blocks_only_waiting.
+Print Assumptions C05_verdict_reported.
 Print Assumptions C05_example.
